@@ -56,13 +56,17 @@ CHECKS = {
         note='Modelled not verified: the C lexer, CPython re/str (re-expressed, compared each run).',
         design='Part B C04'),
     'C05': dict(
-        text='Theorems over the model of IntrospectablePass.validate (all namespaces): the non-introspectability propagation is a '
-             'terminating fixed point; after validate every callable/field/property/alias left introspectable only uses types that '
-             'resolve to fundamentals or introspectable definitions, has no varargs/va_list/long long/long double, states transfer, '
-             'scope and element types (closure theorem on the executable well-formedness predicate girWellFormed); written indices are in '
-             'range or the writer errors. girWellFormed (Lean, decidable) is also evaluated on every GIR the real pipeline emits in the '
-             'run and on every shipped/expected GIR in the tree: that is the failing-input search.',
-        note='Modelled not verified: earlier passes establish the AST invariants assumed (C01/C03/C04/C12 models); the C lexer.',
+        text='Theorems over the model of IntrospectablePass.validate (all namespaces): the propagation of non-introspectability is a '
+             'terminating fixed point (a round only clears flags; exit within count+1 rounds); after validate every alias, callable '
+             '(top-level or nested), typed field, property and field holding an anonymous callback that is left introspectable refers '
+             'only to leaves that are foreign, an allowed fundamental or a still-introspectable non-skipped node — never unresolved, '
+             'never varargs (C05_closure, C05_fields_props); no unresolved/varargs/va_list/long long/long double at any depth, skipped '
+             'values included (C05_exotic, full); transfer, scope and element type stated for values not marked (skip) (C05_bindable); '
+             'setter/getter and set-/get-property stay in agreement through the property analysis; written closure/destroy/length '
+             'indices are in range and name the requested parameter or the writer raises. Witness theorems keep the inputs of the '
+             'repaired defects as regressions. The executable predicate girWellFormed (Lean) is evaluated on every GIR the real pipeline '
+             'emits in the run and on every shipped/expected GIR: that is the failing-input search.',
+        note='Modelled not verified: earlier passes establish the AST invariants assumed (agreement on entry is _pair_property_accessors\' job, judged on the real output only); the C lexer. Scope decision: values marked (skip) are exempt from the three "states ..." clauses in the oracle (bindings ignore them; the pass returns early on them by design), counted as oracle:skipex.',
         design='Part B C05'),
     'C06': dict(
         text='Theorems: every blob layout measured from gitypelib-internal.h by a compiled probe each run is well formed (no overlap, '
@@ -209,7 +213,7 @@ CHECKS = {
 }
 
 # properties whose check currently passes on the unchanged tree and is registered
-CLAIMED = ['C01', 'C02', 'C04', 'C07', 'C08', 'C11', 'C12', 'C13', 'C14', 'C16', 'C17', 'C18', 'C19', 'C20']
+CLAIMED = ['C01', 'C02', 'C04', 'C05', 'C07', 'C08', 'C11', 'C12', 'C13', 'C14', 'C16', 'C17', 'C18', 'C19', 'C20']
 
 PENDING = {
 }
